@@ -307,7 +307,7 @@ pub fn run_one(cfg : &Config, seed : u64, k : u64, stats : &mut Stats) -> Vec<Fo
     let mut seen = BTreeSet::new();
     for v in vs
     {
-        if !seen.insert(v.sig.clone()) { continue; }
+        if !seen.insert(v.sig.clone()) || !stats.reported.insert(v.sig.clone()) { continue; }
         let explicit = explicit_schedules(&case);
         let base = if run_case(&explicit, None).iter().any(|x| x.sig == v.sig) { explicit } else { case.clone() };
         let sig = v.sig.clone();
